@@ -1,6 +1,7 @@
 package main
 
 import (
+	"github.com/olive-io/bpmn/schema"
 	"sync/atomic"
 	"math"
 	"errors"
@@ -480,6 +481,7 @@ func runC08(env *Env) {
 	propertyPerRequest(env, rep, "C08-results", "C08-results")
 	threeTokensOneTask(env, rep, "C08-first-wins", 4)
 	implicitEndTask(env, rep, "C08-results")
+	dataObjectsBetweenTasks(env, rep, "C08-results")
 	env.WriteCases(rep, "_modes", "Corr.C08corr", "list nat * nat * nat * nat", citems, "c08_modes_mismatches")
 	env.WriteReport(rep)
 }
@@ -694,6 +696,113 @@ func implicitEndTask(env *Env, rep *Report, key string) {
 			if errs != 1 || countEv(in.Log(), "task", "B") != 2 {
 				fail(cs, fmt.Sprintf("%d error traces (expected 1), B requested %d times (expected 2)", errs, countEv(in.Log(), "task", "B")), in)
 			}
+		}
+		in.Close()
+	}
+}
+
+// dataObjectsBetweenTasks: a task writes a data object (a declared data output, answered with DoWithObjects), a later
+// task reads it as a data input; written again, the next reader sees the new value. The same with a sub-process in
+// the process (before the tasks, between them, never reached) and with the reader inside a sub-process.
+func dataObjectsBetweenTasks(env *Env, rep *Report, key string) {
+	for v := 0; v < 5; v++ {
+		where := []string{"no sub-process", "a sub-process before the tasks", "a sub-process between the tasks", "a sub-process no token reaches", "the reader inside a sub-process"}[v]
+		cs := "task W writes the data object 'order', task R reads it, W2 writes it again, R2 reads it; " + where
+		env.Current(cs)
+		p := &Prog{Raw: `<bpmn:dataObject id="order"/>`}
+		wr := func(pr *Prog, id string) {
+			n := pr.Node("task", id)
+			n.Ext = `<olive:dataOutput name="order" targetRef="order"/>`
+		}
+		rd := func(pr *Prog, id string) {
+			n := pr.Node("task", id)
+			n.Ext = `<olive:dataInput name="in" targetRef="order"/>`
+		}
+		sub := func(id string, inner func(*Prog)) {
+			h := p.Node("sub", id)
+			h.Sub = &Prog{nflow: 700}
+			h.Sub.Node("start", id+"s")
+			prev := id + "s"
+			if inner != nil {
+				inner(h.Sub)
+				h.Sub.Flow(prev, "R", "")
+				prev = "R"
+			}
+			h.Sub.Node("end", id+"e")
+			h.Sub.Flow(prev, id+"e", "")
+		}
+		p.Node("start", "start")
+		chain := []string{"start"}
+		add := func(id string) { chain = append(chain, id) }
+		if v == 1 {
+			sub("SP", nil)
+			add("SP")
+		}
+		wr(p, "W")
+		add("W")
+		if v == 2 {
+			sub("SP", nil)
+			add("SP")
+		}
+		if v == 4 {
+			sub("SR", func(in *Prog) { rd(in, "R") })
+			add("SR")
+		} else {
+			rd(p, "R")
+			add("R")
+		}
+		wr(p, "W2")
+		add("W2")
+		rd(p, "R2")
+		add("R2")
+		p.Node("end", "end")
+		add("end")
+		for i := 0; i+1 < len(chain); i++ {
+			p.Flow(chain[i], chain[i+1], "")
+		}
+		if v == 3 {
+			sub("SP", nil) // no incoming flow: never reached
+		}
+		defs, err := ParseDefs(p.XML(""))
+		must(err)
+		in, err := StartInst(defs, InstOpt{})
+		must(err)
+		rep.Evaluations++
+		rep.Nontrivial++
+		rep.Count("data_objects_between_tasks")
+		problem := ""
+		read := func(task string, want string) {
+			if problem != "" {
+				return
+			}
+			t := in.WaitTask(task, tmoStep)
+			if t == nil {
+				problem = task + " not requested"
+				return
+			}
+			got := "absent"
+			if it, ok := t.GetDataObjects()["in"]; ok && it != nil {
+				got = fmt.Sprint(it.Value())
+			}
+			if got != want {
+				problem = fmt.Sprintf("%s reads its data input 'in' = %s, expected %s", task, got, want)
+			}
+			t.Do()
+		}
+		write := func(task string, val any) {
+			if problem == "" && !in.Answer(task, tmoStep, bpmn.DoWithObjects(map[string]any{"order": val})) {
+				problem = task + " not requested"
+			}
+		}
+		write("W", map[string]any{"id": 7})
+		read("R", fmt.Sprint(schema.NewValue(map[string]any{"id": 7}).Value()))
+		write("W2", "second")
+		read("R2", "second")
+		if problem == "" && !in.WaitCease(tmoStep) {
+			problem = "all tasks answered, the instance did not complete"
+		}
+		if problem != "" {
+			rep.Violate(key, cs, problem+"; log: "+logString(in.Log()))
 		}
 		in.Close()
 	}
